@@ -648,6 +648,14 @@ func genC17Ext(rt *rapid.T) c17Ext {
 			x.Ext = append(x.Ext, e)
 		}
 	}
+	// other stacks list their extensions in other orders (usrsctp: FORWARD-TSN, I-FORWARD-TSN, ...,
+	// RE-CONFIG, I-DATA), sometimes with repeats
+	if len(x.Ext) > 1 && rapid.Bool().Draw(rt, "shuffle") {
+		x.Ext = rapid.Permutation(x.Ext).Draw(rt, "order")
+	}
+	if len(x.Ext) > 0 && rapid.IntRange(0, 5).Draw(rt, "repeat") == 0 {
+		x.Ext = append(x.Ext, x.Ext[0])
+	}
 	x.NoExt = rapid.IntRange(0, 9).Draw(rt, "noext") == 0
 	return x
 }
@@ -739,6 +747,13 @@ func runC17Ext(t *testing.T, x c17Ext, verbose bool) (c vfCase) {
 			return
 		}
 		h.s.SetReliabilityParams(x.Unord, byte(x.RelT), uint32(x.RelV))
+		// the peer may use the forward-TSN variant that was negotiated (here one that skips
+		// nothing): it must not be taken for a protocol violation
+		if il && has(wtIFWD) {
+			p.send(wChunk{Type: wtIFWD, NewCum: 9000 - 1})
+		} else if !il && has(wtFWD) {
+			p.send(wChunk{Type: wtFWD, NewCum: 9000 - 1})
+		}
 		for i := 0; i < x.NMsg; i++ {
 			s.doWrite(0, 1, x.Size, 53)
 			s.o.settle(20 * time.Millisecond)
@@ -785,8 +800,15 @@ func runC17Ext(t *testing.T, x c17Ext, verbose bool) (c vfCase) {
 			if md.MessageInterleavingEnabled != il {
 				c.fail("metadata-interleaving", "Metadata().MessageInterleavingEnabled=%v, negotiated %v", md.MessageInterleavingEnabled, il)
 			}
-			if il && md.PartialReliabilityMode == PartialReliabilityModeForwardTSN || !il && md.PartialReliabilityMode == PartialReliabilityModeIForwardTSN {
-				c.fail("metadata-forward-tsn-variant", "interleaving=%v but partial reliability mode %v", il, md.PartialReliabilityMode)
+			want := PartialReliabilityModeNone
+			switch {
+			case il && has(wtIFWD):
+				want = PartialReliabilityModeIForwardTSN
+			case !il && has(wtFWD):
+				want = PartialReliabilityModeForwardTSN
+			}
+			if md.PartialReliabilityMode != want {
+				c.fail("metadata-forward-tsn-variant", "interleaving=%v, peer extensions %v: partial reliability mode %v, expected %v", il, x.Ext, md.PartialReliabilityMode, want)
 			}
 		}
 	})
